@@ -51,3 +51,48 @@ package service
 //@ func Diff
 //@ requires nonnil(should) && nonnil(actual) && klog.tiny(klog.dmin(should)) && klog.tiny(klog.dmin(actual))
 //@ ensures nonnil(result) && klog.dmin(result) == klog.dmin(actual) - klog.dmin(should)
+
+// ---------------------------------------------------------------------------------------------
+// query.go — filters (property C13)
+
+// The date clauses as day numbers, each with a flag saying whether the clause is present.
+//@ spec rdn(r klog.Record) int = klog.ddn(r.(*klog.record).date)
+//@ spec dOkN(r klog.Record, hasAt bool, at int, hasLo bool, lo int, hasHi bool, hi int) bool = (!hasAt || at == rdn(r)) && (!hasLo || lo <= rdn(r)) && (!hasHi || rdn(r) <= hi)
+// cntN(rs, ..., n): how many of the first n records match.
+//@ spec cntN(rs []klog.Record, hasAt bool, at int, hasLo bool, lo int, hasHi bool, hi int, n int) int = sum(k, 0, n, ite(dOkN(rs[k], hasAt, at, hasLo, lo, hasHi, hi), 1, 0))
+// selected(rs, out, ...): out consists of exactly the matching records of rs, the very same record objects, in their
+// original order: the i-th record, if it matches, is the cntN(i)-th element of out, and out has cntN(len(rs)) elements.
+//@ spec selected(rs []klog.Record, out []klog.Record, hasAt bool, at int, hasLo bool, lo int, hasHi bool, hi int) bool = len(out) == cntN(rs, hasAt, at, hasLo, lo, hasHi, hi, len(rs)) && forall(i, 0, len(rs), 0 <= cntN(rs, hasAt, at, hasLo, lo, hasHi, hi, i) && cntN(rs, hasAt, at, hasLo, lo, hasHi, hi, i) <= len(out) && implies(dOkN(rs[i], hasAt, at, hasLo, lo, hasHi, hi), cntN(rs, hasAt, at, hasLo, lo, hasHi, hi, i) < len(out) && out[cntN(rs, hasAt, at, hasLo, lo, hasHi, hi, i)] == rs[i]))
+
+// Filter with date clauses only (tag and entry-type clauses: see below).
+//@ func Filter
+//@ requires len(o.Tags) == 0 && o.EntryType == ""
+//@ requires forall(i, 0, len(rs), typeis(rs[i], *klog.record) && typeis(rs[i].(*klog.record).date, *klog.date))
+//@ requires (isnil(o.AtDate) || typeis(o.AtDate, *klog.date)) && (isnil(o.BeforeOrEqual) || typeis(o.BeforeOrEqual, *klog.date)) && (isnil(o.AfterOrEqual) || typeis(o.AfterOrEqual, *klog.date))
+//@ let hasAt = nonnil(o.AtDate)
+//@ let at = klog.ddn(o.AtDate)
+//@ let hasLo = nonnil(o.AfterOrEqual)
+//@ let lo = klog.ddn(o.AfterOrEqual)
+//@ let hasHi = nonnil(o.BeforeOrEqual)
+//@ let hi = klog.ddn(o.BeforeOrEqual)
+//@ ensures selected(rs, result, hasAt, at, hasLo, lo, hasHi, hi)
+//@ loop 1 invariant len(records) == cntN(rs, nonnil(o.AtDate), klog.ddn(o.AtDate), nonnil(o.AfterOrEqual), klog.ddn(o.AfterOrEqual), nonnil(o.BeforeOrEqual), klog.ddn(o.BeforeOrEqual), rangeindex+1)
+//@ loop 1 invariant forall(i, 0, rangeindex+1, 0 <= cntN(rs, nonnil(o.AtDate), klog.ddn(o.AtDate), nonnil(o.AfterOrEqual), klog.ddn(o.AfterOrEqual), nonnil(o.BeforeOrEqual), klog.ddn(o.BeforeOrEqual), i) && cntN(rs, nonnil(o.AtDate), klog.ddn(o.AtDate), nonnil(o.AfterOrEqual), klog.ddn(o.AfterOrEqual), nonnil(o.BeforeOrEqual), klog.ddn(o.BeforeOrEqual), i) <= len(records) && implies(dOkN(rs[i], nonnil(o.AtDate), klog.ddn(o.AtDate), nonnil(o.AfterOrEqual), klog.ddn(o.AfterOrEqual), nonnil(o.BeforeOrEqual), klog.ddn(o.BeforeOrEqual)), cntN(rs, nonnil(o.AtDate), klog.ddn(o.AtDate), nonnil(o.AfterOrEqual), klog.ddn(o.AfterOrEqual), nonnil(o.BeforeOrEqual), klog.ddn(o.BeforeOrEqual), i) < len(records) && records[cntN(rs, nonnil(o.AtDate), klog.ddn(o.AtDate), nonnil(o.AfterOrEqual), klog.ddn(o.AfterOrEqual), nonnil(o.BeforeOrEqual), klog.ddn(o.BeforeOrEqual), i)] == rs[i]))
+
+// Entry-type clause: tOk(e, t) says whether entry e is of the queried type; reduceRecordToMatchingEntryTypes keeps
+// exactly the matching entries, the very same values in their original order (same counting scheme as for records),
+// and reports whether any entry matched. It writes the record's entry list (the record object itself is reused).
+//@ spec tOk(e klog.Entry, t EntryType) bool = (typeis(e.value, *klog.timeRange) && t == "RANGE") || (typeis(e.value, *klog.openRange) && t == "OPEN_RANGE") || (typeis(e.value, *klog.duration) && (t == "DURATION" || (t == "DURATION_POSITIVE" && e.value.(*klog.duration).minutes >= 0) || (t == "DURATION_NEGATIVE" && e.value.(*klog.duration).minutes < 0)))
+//@ spec cntE(es []klog.Entry, t EntryType, n int) int = sum(k, 0, n, ite(tOk(es[k], t), 1, 0))
+
+//@ func reduceRecordToMatchingEntryTypes
+//@ requires typeis(r, *klog.record) && forall(i, 0, len(r.(*klog.record).entries), klog.ekind(r.(*klog.record).entries[i]) && klog.small(klog.edur(r.(*klog.record).entries[i])))
+//@ modifies r.(*klog.record).entries
+//@ let es = old(r.(*klog.record).entries)
+//@ ensures result1 == (cntE(es, t, len(es)) > 0)
+//@ ensures implies(result1, result0 == r && len(r.(*klog.record).entries) == cntE(es, t, len(es)))
+//@ ensures implies(result1, forall(i, 0, len(es), implies(tOk(es[i], t), cntE(es, t, i) < len(r.(*klog.record).entries) && same(r.(*klog.record).entries[cntE(es, t, i)], es[i]))))
+//@ ensures implies(!result1, same(r.(*klog.record).entries, es))
+//@ loop 1 invariant len(matchingEntries) == cntE(r.(*klog.record).entries, t, rangeindex+1)
+//@ loop 1 invariant forall(k, 0, len(matchingEntries), klog.ekind(matchingEntries[k]))
+//@ loop 1 invariant forall(i, 0, rangeindex+1, 0 <= cntE(r.(*klog.record).entries, t, i) && cntE(r.(*klog.record).entries, t, i) <= len(matchingEntries) && implies(tOk(r.(*klog.record).entries[i], t), cntE(r.(*klog.record).entries, t, i) < len(matchingEntries) && same(matchingEntries[cntE(r.(*klog.record).entries, t, i)], r.(*klog.record).entries[i])))
